@@ -16,7 +16,12 @@ Decided (the part of each algorithm that is data, wiring or encoding, for every 
              words = IV, counters zero; final block flagged last with the byte count of the buffer;
              keyed start = zero block with the key (shared rules with C02/C09)
   rotations  sigma/ch/maj helper rotation amounts of SHA-256 / SHA-512, BLAKE2 G rotations = R1..R4
-Not decided: the compression functions / permutations as numerical functions."""
+  compress-eq  SHA-256: impl256::reference (1, 2 blocks), the 4-way SSE4.1 path (4 blocks, 4+1 with the scalar tail) and the
+             8-way AVX path (8 blocks; thorough: 8+4+1) equal the FIPS 180-4 compression function iterated over the run, as
+             value graphs over symbolic state and message bytes (message schedule, Sigma/sigma, Ch, Maj, K, feed-forward);
+             BLAKE2b/s AVX and AVX2 compressions equal RFC 7693 F (lane-eq)
+  absorb / block-run  which block is compressed when, and that BLAKE2's final flag goes to the last block only (shared with C02)
+Not decided: the compression functions of SHA-1, SHA-512, RIPEMD-160 and Keccak-f as numerical functions."""
 import re
 
 from .. import mir, pred, rules, ssa, termbits
@@ -25,7 +30,7 @@ from ..spec import hashes as H
 from . import hashctx
 
 EXPLANATION = __doc__
-TECHNIQUE = "evaluated constants vs. definition-derived oracle, wiring by canonical expression, linear-form predicate of the padding branch, term-domain dataflow with loop unrolling and bit provenance for pad / parameter bytes"
+TECHNIQUE = "value-graph equality (abstract interpretation of MIR in a hash-consed bit-level term domain with linear-combination, parity and truth-table normal forms) against specification graphs; evaluated constants vs. definition-derived oracle, wiring by canonical expression, linear-form predicate of the padding branch, term-domain dataflow with loop unrolling and bit provenance for pad / parameter bytes"
 
 
 def cn(fn, op):
